@@ -495,9 +495,16 @@ where
         if let Some(ref mut data) = self.writing {
             while data.has_remaining() {
                 let stream = Pin::new(&mut self.stream);
-                let written = ready!(stream.poll_write(cx, data.chunk()))
-                    .map_err(convert_write_error_to_stream_error)?;
-                data.advance(written);
+                match ready!(stream.poll_write(cx, data.chunk())) {
+                    Ok(written) => data.advance(written),
+                    Err(error) => {
+                        // The rest of the buffer can never be written. Forget it: keeping it
+                        // makes the next send_data() report an internal error of the connection
+                        // for what is an error of this stream (e.g. the peer's STOP_SENDING).
+                        self.writing = None;
+                        return Poll::Ready(Err(convert_write_error_to_stream_error(error)));
+                    }
+                }
             }
         }
         // all data is written
